@@ -558,8 +558,10 @@ def glide_script(rng, sid, n):
 
 def glide_step(rng, sid, fs, t, lo=0.0, hi=1.0):
     n = int(math.ceil(t * fs))
-    ops = ["glide.new " + hx(fs), "time " + hx(t)]
-    ops += ["proc " + hx(lo)] * 3
+    # a new processor starts with the fastest coefficients: settle on lo first, then select the time
+    ops = ["glide.new " + hx(fs)]
+    ops += ["proc " + hx(lo)] * 12
+    ops.append("time " + hx(t))
     ops += ["proc " + hx(hi)] * (min(3 * n, 60000) + 10)
     return Script(sid, ops, {"module": "glide", "family": "step", "fs": fs, "t": t, "lo": lo, "hi": hi})
 
